@@ -277,6 +277,7 @@ var c26AtomTable = [][3]string{
 	{"break-while-until", "", "i=0; while true; do until false; do i=$((i+1)); [ $i -ge 2 ] && break 2; echo $i; continue 2; done; echo no; done; echo $i"},
 	{"break-status", "", "for i in 1; do false; break; done; echo $?; for i in 1; do false; continue; done; echo $?"},
 	{"break-in-case", "", "for i in 1 2; do case $i in 1) continue;; 2) break;; esac; echo no; done; echo end"},
+	{"break-in-while-cond", "", "i=0; while i=$((i+1)); [ $i -lt 3 ] || break; [ $i -lt 6 ]; do echo b$i; done; echo $i"},
 	{"break-for-c", "", "for ((i=0; i<5; i++)); do [ $i = 1 ] && continue; [ $i = 3 ] && break; echo $i; done; echo $i"},
 	// --- setup atoms: state that the following statements run under
 	{"set-e", "sc", "set -e"},
@@ -339,7 +340,7 @@ var c26Unary = []struct{ Name, Tmpl string }{
 	{"if-cond", "if\n%S\nthen echo T:$?; else echo F:$?; fi"},
 	{"else-body", "if false; then :; else\n%S\nfi"},
 	{"loop-body", "for k in 1 2; do\n%S\necho k$k:$?; done"},
-	{"while-cond", "n=0; while\n[ $n -lt 2 ] || break; n=$((n+1))\n%S\ndo echo body$n; done"},
+	{"while-cond", "n=0; while\n%S\ndo n=$((n+1)); echo body$n; [ $n -ge 2 ] && break; done"},
 	{"cmdsubst", "r=$(\n%S\n); echo \"$?[$r]\""},
 	{"and-left", "%G && echo A:$?"},
 	{"or-left", "%G || echo O:$?"},
@@ -359,7 +360,7 @@ var c26Binary = []struct{ Name, Tmpl string }{
 	{"or", "%G1 || %G2"},
 	{"pipe", "%G1 | %G2"},
 	{"if-then", "if\n%S1\nthen\n%S2\nfi"},
-	{"while-body", "n=0; while\n[ $n -lt 2 ] || break; n=$((n+1))\n%S1\ndo\n%S2\ndone"},
+	{"while-body", "n=0; while\n%S1\ndo n=$((n+1)); [ $n -gt 2 ] && break\n%S2\ndone"},
 	{"fn-then", "w() {\n%S1\n}; w\n%S2"},
 	{"subshell-then", "(\n%S1\n)\n%S2"},
 }
@@ -379,6 +380,12 @@ func (s c26Stmt) grp() string {
 		return s.src
 	}
 	return "{\n" + s.src + "\n}"
+}
+
+// c26Loops reports whether putting statement s in the condition of a while
+// loop would never terminate (a `continue` reaching that loop).
+func c26LoopsForever(desc string) bool {
+	return strings.Contains(desc, "continue") && !strings.Contains(desc, "continue-nested") && !strings.Contains(desc, "continue-out") && !strings.Contains(desc, "continue-0-in")
 }
 
 func c26ApplyU(ui int, s c26Stmt) c26Stmt {
@@ -437,6 +444,9 @@ func c26GenPrograms(thorough bool, emit func(desc, src string)) {
 	}
 	for _, a := range all {
 		for ui := range c26Unary {
+			if c26Unary[ui].Name == "while-cond" && c26LoopsForever(a.Name) {
+				continue
+			}
 			s := c26ApplyU(ui, c26FromAtom(a))
 			out("", "", s)
 			for _, st := range s1 {
@@ -452,6 +462,9 @@ func c26GenPrograms(thorough bool, emit func(desc, src string)) {
 				continue
 			}
 			for bi := range c26Binary {
+				if c26Binary[bi].Name == "while-body" && c26LoopsForever(a.Name) {
+					continue
+				}
 				out("", "", c26ApplyB(bi, c26FromAtom(a), c26FromAtom(b)))
 			}
 		}
@@ -464,6 +477,9 @@ func c26GenPrograms(thorough bool, emit func(desc, src string)) {
 		for _, a := range core {
 			for _, b := range core {
 				for bi := range c26Binary {
+					if c26Binary[bi].Name == "while-body" && c26LoopsForever(a.Name) {
+						continue
+					}
 					out(st.Src, st.Name, c26ApplyB(bi, c26FromAtom(a), c26FromAtom(b)))
 				}
 			}
@@ -480,6 +496,9 @@ func c26GenPrograms(thorough bool, emit func(desc, src string)) {
 					// while-cond twice would reset the shared counter n forever
 					continue
 				}
+				if (c26Unary[u1].Name == "while-cond" || c26Unary[u2].Name == "while-cond") && c26LoopsForever(a.Name) {
+					continue
+				}
 				out("", "", c26ApplyU(u1, c26ApplyU(u2, c26FromAtom(a))))
 			}
 		}
@@ -492,6 +511,9 @@ func c26GenPrograms(thorough bool, emit func(desc, src string)) {
 			}
 			for _, a := range core {
 				for ui := range c26Unary {
+					if c26Unary[ui].Name == "while-cond" && c26LoopsForever(a.Name) {
+						continue
+					}
 					out(s1.Src+"\n"+s2.Src, s1.Name+"; "+s2.Name, c26ApplyU(ui, c26FromAtom(a)))
 				}
 			}
